@@ -200,6 +200,11 @@ pub trait Conn: Sized {
     fn parse(data: &[u8], has_token: bool) -> (Parsed, Vec<String>);
     /// Largest payload `send` accepts according to the API constant.
     fn max_payload() -> usize;
+    /// The token incoming connection-oriented datagrams must carry, once the
+    /// endpoint has fixed one (0.6: DDNet token extension in use; 0.7: own token).
+    fn fixed_token(&self) -> Option<[u8; 4]>;
+    /// The token attached to outgoing datagrams, where known.
+    fn peer_token(&self) -> Option<[u8; 4]>;
 }
 
 fn drain6(it: c6::ReceivePacket) -> Vec<Event> {
@@ -328,6 +333,15 @@ impl Conn for c6::Connection {
     fn max_payload() -> usize {
         p6::MAX_PAYLOAD
     }
+    fn fixed_token(&self) -> Option<[u8; 4]> {
+        match self.verif_expected_token() {
+            Some(Some(t)) => Some(t.0),
+            _ => None,
+        }
+    }
+    fn peer_token(&self) -> Option<[u8; 4]> {
+        self.fixed_token()
+    }
 }
 
 impl Conn for c7::Connection {
@@ -429,6 +443,12 @@ impl Conn for c7::Connection {
     }
     fn max_payload() -> usize {
         p7::MAX_PAYLOAD
+    }
+    fn fixed_token(&self) -> Option<[u8; 4]> {
+        self.verif_tokens().0.map(|t| t.0)
+    }
+    fn peer_token(&self) -> Option<[u8; 4]> {
+        self.verif_tokens().1.map(|t| t.0)
     }
 }
 
@@ -711,7 +731,7 @@ impl<C: Conn> Sim<C> {
         self.sides[0].cb.now_us
     }
 
-    fn set_now(&mut self, t: u64) {
+    pub fn set_now(&mut self, t: u64) {
         self.sides[0].cb.now_us = t;
         self.sides[1].cb.now_us = t;
     }
